@@ -28,7 +28,47 @@ def gen_files(scratch):
 # ---------------------------------------------------------------------------- implementation access
 def cls_of(model):
     import pyrex.askaryan as ask
-    return {"ZHS": ask.ZHSAskaryanSignal, "AVZ": ask.AVZAskaryanSignal, "ARZ": ask.ARZAskaryanSignal}[model]
+    prim = {"ZHS": ask.ZHSAskaryanSignal, "AVZ": ask.AVZAskaryanSignal, "ARZ": ask.ARZAskaryanSignal}
+    if model in prim:
+        return prim[model]
+    obj = getattr(ask, model, None)             # any other public name of the module (alias, deprecated subclass ...)
+    if obj is None:
+        import pyrex
+        obj = getattr(pyrex, model)
+    return obj
+
+
+def public_signal_classes():
+    """Every public signal class / alias of pyrex/askaryan.py, read from the SOURCE (top-level class definitions and
+    top-level `Name = Class` assignments) plus the names pyrex/__init__.py re-exports from it.  Returns {name: kind},
+    kind in ZHS / AVZ / ARZ by the primary class in its MRO (None when it derives from none of them)."""
+    import ast
+    import pyrex
+    import pyrex.askaryan as ask
+    tree = ast.parse(open(os.path.join(REPO, "pyrex", "askaryan.py")).read())
+    names = []
+    for node in tree.body:
+        if isinstance(node, ast.ClassDef) and not node.name.startswith("_"):
+            names.append(node.name)
+        if isinstance(node, ast.Assign) and len(node.targets) == 1 and isinstance(node.targets[0], ast.Name) \
+                and isinstance(node.value, ast.Name) and not node.targets[0].id.startswith("_"):
+            names.append(node.targets[0].id)
+    try:
+        init = ast.parse(open(os.path.join(REPO, "pyrex", "__init__.py")).read())
+        for node in ast.walk(init):
+            if isinstance(node, ast.ImportFrom) and node.module and node.module.endswith("askaryan"):
+                names += [a.asname or a.name for a in node.names if a.name != "*"]
+    except OSError:
+        pass
+    prim = {"ZHS": ask.ZHSAskaryanSignal, "AVZ": ask.AVZAskaryanSignal, "ARZ": ask.ARZAskaryanSignal}
+    out = {}
+    for nm in dict.fromkeys(names):
+        obj = getattr(ask, nm, None) or getattr(pyrex, nm, None)
+        if not isinstance(obj, type):
+            continue
+        kind = next((k for k, b in prim.items() if issubclass(obj, b)), None)
+        out[nm] = kind
+    return out
 
 
 class FixedIce:
@@ -42,6 +82,22 @@ class FixedIce:
 
 def particle(E, em, had, depth=-1000.0):
     return NS(energy=E, vertex=np.array([0.0, 0.0, depth]), id=None, interaction=NS(em_frac=em, had_frac=had))
+
+
+def build_styles(case):
+    """The same construction through every calling convention of the public constructor (all positional, all keywords,
+    keywords in another order): the three optional arguments viewing_distance, ice_model, t0 all non-default."""
+    import warnings
+    c = case
+    cls = cls_of(c["model"])
+    times = np.asarray(c["times"], dtype=float)
+    p = particle(c["E"], c["em"], c["had"])
+    ice = FixedIce(c["n"])
+    with warnings.catch_warnings():
+        warnings.simplefilter("ignore")
+        return {"positional": cls(times, p, c["psi"], c["R"], ice, c["t0"]),
+                "keywords": cls(times=times, particle=p, viewing_angle=c["psi"], viewing_distance=c["R"], ice_model=ice, t0=c["t0"]),
+                "keywords reordered": cls(t0=c["t0"], ice_model=ice, viewing_distance=c["R"], viewing_angle=c["psi"], particle=p, times=times)}
 
 
 def impl_signal(case, **over):
@@ -476,6 +532,7 @@ def arz_global_peak(c):
 
 
 def probes(ctx, mult=1, models=MODELS):
+    global SWEEP
     rng = ctx.rng
     counts = {}
     MODELS = models          # (shadows the module constant inside this function)
@@ -809,6 +866,110 @@ def probes(ctx, mult=1, models=MODELS):
             except Exception as e:
                 fail("second_step", c, "[%s branch] second-step operation raises %s: %s" % (variant, type(e).__name__, str(e)[:200]), variant=variant)
 
+    # ---- every PUBLIC signal class / alias of the module (enumerated from the source), every calling convention
+    if set(MODELS) == {"ZHS", "AVZ", "ARZ"} or SWEEP:
+        pub = public_signal_classes()
+        ctx.extra["public_signal_classes"] = pub
+        prim_name = {"ZHS": "ZHSAskaryanSignal", "AVZ": "AVZAskaryanSignal", "ARZ": "ARZAskaryanSignal"}
+        for name, kind in pub.items():
+            if kind is None:
+                fail("public_class", {"model": name, "times": [0.0, 1.0], "dt": 1.0, "E": 0, "em": 0, "had": 0, "psi": 0, "R": 1, "n": 1.5, "t0": 0},
+                     "public class %s of pyrex/askaryan.py derives from none of the modelled signal classes" % name)
+                continue
+            for it in range(ctx.n(3, 20) * mult):
+                c = probe_case(rng, kind)
+                c["times"] = c["times"][:64]
+                N = len(c["times"])
+                c["t0"] = c["times"][0] + (rng.randint(2, N - 3) + rng.choice([0.0, 0.5])) * c["dt"]
+                if rng.random() < 0.4:
+                    c["psi"] = rng.choice([-1, 1]) * theta_c(c["n"])
+                c["model"] = name
+                try:
+                    vs = {k: np.array(o.values, dtype=float) for k, o in build_styles(c).items()}
+                except Exception as e:
+                    fail("public_class", c, "constructing %s raises %s: %s" % (name, type(e).__name__, str(e)[:150]))
+                    continue
+                count("public_class")
+                v = vs["positional"]
+                peak = float(np.abs(v).max())
+                for k, w in vs.items():
+                    if not np.array_equal(w, v):
+                        fail("public_class", c, "%s called with %s differs from the positional call by %.3g (peak %.3g)" % (name, k, float(np.abs(w - v).max()), peak), style=k)
+                if name != prim_name[kind]:                      # an alias / renamed subclass is the same signal
+                    ref = run(dict(c, model=kind))
+                    if ref is not None and not np.array_equal(ref, v):
+                        fail("public_class", c, "%s differs from %s for the same arguments by %.3g (peak %.3g)" % (name, prim_name[kind], float(np.abs(ref - v).max()), peak))
+                # the clauses of the property through this public name
+                v1 = run(c, R=1.0)
+                R2 = rand_distance(rng)
+                v2 = run(c, R=R2)
+                if v1 is not None and v2 is not None:
+                    p1 = float(np.abs(v1).max())
+                    for RR, vv in ((c["R"], v), (R2, v2)):
+                        if float(np.abs(vv * RR - v1).max()) > PEAK_TOL * p1:
+                            fail("inv_distance", dict(c, R=RR), "max |value(R)*R - value(1)| = %.3g, peak %.3g" % (float(np.abs(vv * RR - v1).max()), p1))
+                vm = run(c, psi=-c["psi"])
+                if vm is not None and not np.array_equal(vm, v):
+                    fail("even_in_angle", c, "pulse for -psi differs from +psi by %.3g (peak %.3g)" % (float(np.abs(vm - v).max()), peak))
+                for over in ({"E": 0.0}, {"em": 0.0, "had": 0.0}):
+                    vz = run(c, **over)
+                    if vz is not None and (len(vz) != N or np.any(vz != 0)):
+                        fail("zero_energy", dict(c, **over), "not an all-zero field of length %d" % N)
+                kf = rng.choice([2.0, 0.5, 3.0])
+                ce = dict(c, em=1.0, had=0.0, psi=theta_c(c["n"]) if kind != "ZHS" else c["psi"])
+                if not near_critical(dict(ce, model=kind)) and not near_critical(dict(ce, model=kind, E=ce["E"] * kf)):
+                    va, vb = run(ce), run(ce, E=ce["E"] * kf)
+                    if va is not None and vb is not None and float(np.abs(vb - kf * va).max()) > PEAK_TOL * kf * float(np.abs(va).max()):
+                        fail("em_linear", ce, "value(%g E) - %g value(E): max %.3g (peak %.3g)" % (kf, kf, float(np.abs(vb - kf * va).max()), float(np.abs(va).max())), factor=kf)
+
+    # ---- ARZ just off the cone on BOTH sides (theta_c +- 3e-5 .. 1e-3 rad; dt_divider 1e3..3e4): finite, no exception, and the
+    #      sampled field can never exceed what ANY convex combination of shifted on-cone potentials allows:
+    #      A(t) = sum_i w_i RAC(t - z_i z_to_t) sin(theta)/sin(theta_c), w_i >= 0, sum w_i = 1 (+ the trapezoid end-point term, < 1e-3)
+    #      =>  |E_j| = |A(t_j+dt) - A(t_j)| / (dt R)  <=  sin(theta)/sin(theta_c) * sup_tau |RAC(tau+dt) - RAC(tau)| / (dt R)
+    if "ARZ" in MODELS:
+        import pyrex.askaryan as ask
+        AR = ask.ARZAskaryanSignal
+
+        def dsup(rac, E, dt):
+            if E == 0:
+                return 0.0
+            taus = np.concatenate((np.linspace(-2e-9, 2e-9, 200001), np.linspace(-3 * dt, 3 * dt, 200001), [0.0, -dt, -dt / 2]))
+            return float(np.abs(rac(taus + dt, E) - rac(taus, E)).max())
+        for it in range(ctx.n(2, 12) * mult):
+            c = probe_case(rng, "ARZ")
+            dt = rng.choice([2.0 ** -33, 2.0 ** -32, 2.0 ** -31])       # 0.12, 0.23, 0.47 ns
+            N = rng.choice([32, 48, 33])
+            c["times"], c["dt"] = [(i - 8) * dt for i in range(N)], dt
+            c["t0"] = rng.choice([0.0, 0.5, 0.25]) * dt
+            c["n"] = rng.choice([1.78, 1.5, 1.35, c["n"]])
+            if near_critical(c):
+                continue
+            tc = theta_c(c["n"])
+            Eem, Ehad = c["E"] * c["em"], c["E"] * c["had"]
+            D = dsup(AR.em_shower_RAC, Eem, dt) + dsup(AR.had_shower_RAC, Ehad, dt)
+            for side in (-1, 1):
+                for d in (3e-5, 1e-4, 3e-4, 1e-3):
+                    th = tc + side * d
+                    v = run(c, psi=th)
+                    if v is None:
+                        continue
+                    count("near_cone")
+                    B = math.sin(th) / math.sqrt(1 - 1 / c["n"] ** 2) * D / dt / c["R"]
+                    pk = float(np.abs(v).max())
+                    if len(v) != N or not np.all(np.isfinite(v)) or pk > 1.01 * B:
+                        fail("near_cone", dict(c, psi=th), "theta = theta_c %+g rad: peak %.6g exceeds the bound %.6g that holds for every weighted average of shifted on-cone pulses (or non-finite / wrong length %d)" % (
+                            side * d, pk, B, len(v)), side=side, delta=d)
+                    elif SWEEP and counts.get("near_cone_quadrature", 0) < ctx.n(6, 60):   # search mode: also the independent quadrature of the ARZ integral
+                        count("near_cone_quadrature")
+                        try:
+                            o = arz_quadrature(dict(c, psi=th))
+                        except Exception:
+                            continue
+                        po = float(np.abs(o).max())
+                        if po > 0 and float(np.abs(v - o).max()) > ORACLE_TOL * po:
+                            fail("near_cone", dict(c, psi=th), "theta = theta_c %+g rad: max |implementation - quadrature of the ARZ integral| = %.3g, peak %.3g" % (
+                                side * d, float(np.abs(v - o).max()), po), side=side, delta=d)
+
     # ---- finiteness / graceful failure over the whole declared input space (cheap models everywhere, ARZ away from the
     #      unaffordable band 1e-6 < |theta - theta_c| < 5e-3 where dt_divider reaches 1e4..1e6)
     for model in MODELS:
@@ -841,10 +1002,10 @@ def probes(ctx, mult=1, models=MODELS):
                 fail("finite", c, "length %d (expected %d), finite=%s" % (len(v), len(c["times"]), bool(np.all(np.isfinite(v)))))
 
     # ---- amplitude largest on the cone, falling with angular distance
-    deltas = [0.0, 0.005, 0.01, 0.02, 0.04, 0.08, 0.16]
+    deltas_std = [0.0, 0.005, 0.01, 0.02, 0.04, 0.08, 0.16]
     for model in MODELS:
+        deltas = [0.0, 3e-5, 1e-4, 3e-4, 1e-3] + deltas_std[1:] if model == "ZHS" else deltas_std
         for it in range(ctx.n(6, 60) * mult):
-            global SWEEP
             sweep_saved = SWEEP
             if model == "ARZ":
                 SWEEP = False     # the sampled ARZ peak probe is only claimed in the nominal regime it was validated in (ice, E >= 1e3 GeV)
